@@ -444,3 +444,30 @@ Theorem ml_prc_slices c xs : asc (thresholds c) -> ml_ok (bC c) xs = true ->
   m_gamma_prc c (ml_beta c xs)
   = (map (fun k => bin_prec (thresholds c) (label_col k xs)) (seq 0 (bC c)), map (fun k => bin_rec (thresholds c) (label_col k xs)) (seq 0 (bC c)), thr_q c).
 Proof. intros Hs Hok. unfold ml_beta. rewrite (ml_counts_spec c xs Hs Hok). exact (prc_slices ml_scs ml_hit c xs Hs). Qed.
+
+(* sample order: the functional form depends on the multiset of samples only *)
+Theorem bprc_fn_perm c xs ys : asc (thresholds c) -> Permutation xs ys -> fn_of bprc_spec c xs = fn_of bprc_spec c ys.
+Proof. intros Hs Hp. apply add_sample_order. apply (bprc_beta_perm c xs ys Hs Hp). Qed.
+Theorem mcprc_fn_perm c xs ys : mc_okb c xs -> Permutation xs ys -> fn_of mcprc_spec c xs = fn_of mcprc_spec c ys.
+Proof. intros H Hp. apply add_sample_order. apply (mc_beta_perm c xs ys H Hp). Qed.
+Theorem mcauprc_fn_perm c xs ys : mc_okb c xs -> Permutation xs ys -> fn_of mcauprc_spec c xs = fn_of mcauprc_spec c ys.
+Proof. intros H Hp. apply add_sample_order. apply (mc_beta_perm c xs ys H Hp). Qed.
+Theorem mlprc_fn_perm c xs ys : ml_okb c xs -> Permutation xs ys -> fn_of mlprc_spec c xs = fn_of mlprc_spec c ys.
+Proof. intros H Hp. apply add_sample_order. apply (ml_beta_perm c xs ys H Hp). Qed.
+Theorem mlauprc_fn_perm c xs ys : ml_okb c xs -> Permutation xs ys -> fn_of mlauprc_spec c xs = fn_of mlauprc_spec c ys.
+Proof. intros H Hp. apply add_sample_order. apply (ml_beta_perm c xs ys H Hp). Qed.
+(* BinaryBinnedAUPRC: each task row may be permuted independently *)
+Theorem bauprc_fn_perm c rows rows' : asc (thresholds c) -> Forall2 (@Permutation sample) rows rows' ->
+  fn_of bauprc_spec c rows = fn_of bauprc_spec c rows'.
+Proof.
+  intros Hs H. apply add_sample_order. cbn [abeta bauprc_spec]. unfold bauprc_beta. cbv zeta.
+  assert (E : map (bin_fn (thresholds c)) rows = map (bin_fn (thresholds c)) rows' /\
+              map (bin_fp (thresholds c)) rows = map (bin_fp (thresholds c)) rows' /\
+              map (bin_tp (thresholds c)) rows = map (bin_tp (thresholds c)) rows').
+  { induction H as [|r r' rows rows' Hp _ (IH1 & IH2 & IH3)]; [auto|]. cbn [map]. rewrite IH1, IH2, IH3.
+    destruct (bin_vectors_spec (thresholds c) r Hs) as (-> & -> & ->). destruct (bin_vectors_spec (thresholds c) r' Hs) as (-> & -> & ->).
+    rewrite (map_ext (fun t => fn_spec t r) (fun t => fn_spec t r')) by (intros t; apply (spec_perm t r r' Hp)).
+    rewrite (map_ext (fun t => fp_spec t r) (fun t => fp_spec t r')) by (intros t; apply (spec_perm t r r' Hp)).
+    rewrite (map_ext (fun t => tp_spec t r) (fun t => tp_spec t r')) by (intros t; apply (spec_perm t r r' Hp)). auto. }
+  destruct E as (-> & -> & ->). reflexivity.
+Qed.
